@@ -84,25 +84,28 @@ Definition no_faults : plan := {| p_fail := fun _ => false; p_crash := None |}.
 Definition crash_at (pl : plan) (n : nat) : bool :=
   match p_crash pl with Some c => Nat.eqb c n | None => false end.
 
+(** the part of the world the programs can read and write ([core]), and the bookkeeping of the
+    fault machinery (operation counter, log) that they cannot *)
+Record core := Core {
+  k_st : storage;
+  k_ocsp : list (N * bool);       (* revoked certificates: serial, reason = keyCompromise? *)
+  k_locked : bool;
+  k_nkey : N;                     (* next fresh key *)
+  k_nser : N                      (* next certificate serial *)
+}.
 Record world := World {
-  w_st : storage;
-  w_ocsp : list (N * bool);       (* revoked certificates: serial, reason = keyCompromise? *)
-  w_locked : bool;
-  w_nkey : N;                     (* next fresh key *)
-  w_nser : N;                     (* next certificate serial *)
+  w_core : core;
   w_cnt : nat;                    (* storage operations so far *)
   w_log : list logev              (* newest first *)
 }.
-Definition empty_world : world := World [] [] false 0 0 0 [].
+Definition w_st (w : world) : storage := k_st (w_core w).
+Definition empty_core : core := Core [] [] false 0 0.
+Definition empty_world : world := World empty_core 0 [].
 
-Definition set_st (w : world) (st : storage) : world :=
-  World st (w_ocsp w) (w_locked w) (w_nkey w) (w_nser w) (w_cnt w) (w_log w).
-Definition set_locked (w : world) (b : bool) : world :=
-  World (w_st w) (w_ocsp w) b (w_nkey w) (w_nser w) (w_cnt w) (w_log w).
-Definition set_cnt (w : world) (n : nat) : world :=
-  World (w_st w) (w_ocsp w) (w_locked w) (w_nkey w) (w_nser w) n (w_log w).
-Definition add_log (w : world) (e : logev) : world :=
-  World (w_st w) (w_ocsp w) (w_locked w) (w_nkey w) (w_nser w) (w_cnt w) (e :: w_log w).
+Definition set_st (c : core) (st : storage) : core :=
+  Core st (k_ocsp c) (k_locked c) (k_nkey c) (k_nser c).
+Definition set_locked (c : core) (b : bool) : core :=
+  Core (k_st c) (k_ocsp c) b (k_nkey c) (k_nser c).
 
 Inductive res (A : Type) := Ok (a : A) | Fail (e : err) | Dead.
 Arguments Ok {A} a. Arguments Fail {A} e. Arguments Dead {A}.
@@ -127,59 +130,63 @@ Definition catch {A} (m : M A) : M (A + err) :=
 Notation "x <- m ;; f" := (bind m (fun x => f)) (at level 61, m at next level, right associativity).
 Notation "m ;;; f" := (bind m (fun _ => f)) (at level 61, right associativity).
 
+(** something that is not a Storage call (key generation, an issuer's answer): acts on the core
+    and leaves a log entry *)
+Definition local {A} (f : core -> res A * core * logev) : M A :=
+  fun w => let '(r, c, e) := f (w_core w) in (r, World c (w_cnt w) (e :: w_log w)).
+
+Fixpoint assoc_ser (l : list (N * bool)) (s : N) : option bool :=
+  match l with [] => None | (s', b) :: r => if N.eqb s' s then Some b else assoc_ser r s end.
+
 Section WithPlan.
   Variable pl : plan.
 
   (** one Storage call: index [w_cnt]; if the plan fails it, it has no effect and yields
       [on_fail]; otherwise [eff]; it is logged with its outcome; if the plan says the process
       dies after this index, the result is [Dead] (the effect has taken place) *)
-  Definition prim {A} (k : okind) (t : otarget) (on_fail : res A) (eff : world -> res A * world) : M A :=
+  Definition prim {A} (k : okind) (t : otarget) (on_fail : res A) (eff : core -> res A * core) : M A :=
     fun w =>
       let n := w_cnt w in
-      let w1 := set_cnt w (S n) in
-      let '(r, w2) := if p_fail pl n then (on_fail, w1) else eff w1 in
-      let w3 := add_log w2 (LOp k t (if p_fail pl n then Some EInjected else res_err r)) in
+      let '(r, c2) := if p_fail pl n then (on_fail, w_core w) else eff (w_core w) in
+      let w3 := World c2 (S n) (LOp k t (if p_fail pl n then Some EInjected else res_err r) :: w_log w) in
       if crash_at pl n then (Dead, w3) else (r, w3).
 
   Definition store (k : fkey) (v : fval) : M unit :=
-    prim OStore (TFile k) (Fail EInjected) (fun w => (Ok tt, set_st w (sput (w_st w) k v))).
+    prim OStore (TFile k) (Fail EInjected) (fun c => (Ok tt, set_st c (sput (k_st c) k v))).
   Definition load (k : fkey) : M fval :=
     prim OLoad (TFile k) (Fail EInjected)
-         (fun w => match sget (w_st w) k with Some v => (Ok v, w) | None => (Fail ENotExist, w) end).
+         (fun c => match sget (k_st c) k with Some v => (Ok v, c) | None => (Fail ENotExist, c) end).
   Definition delete (k : fkey) : M unit :=
-    prim ODelete (TFile k) (Fail EInjected) (fun w => (Ok tt, set_st w (sdel (w_st w) k))).
+    prim ODelete (TFile k) (Fail EInjected) (fun c => (Ok tt, set_st c (sdel (k_st c) k))).
   Definition delete_dir (i : nat) (d : N) : M unit :=
-    prim ODelete (TDir i d) (Fail EInjected) (fun w => (Ok tt, set_st w (sdel_dir (w_st w) i d))).
+    prim ODelete (TDir i d) (Fail EInjected) (fun c => (Ok tt, set_st c (sdel_dir (k_st c) i d))).
   (** Storage.Exists has no error result: a failing back-end answers false *)
   Definition exists_ (k : fkey) : M bool :=
     prim OExists (TFile k) (Ok false)
-         (fun w => (Ok (match sget (w_st w) k with Some _ => true | None => false end), w)).
+         (fun c => (Ok (match sget (k_st c) k with Some _ => true | None => false end), c)).
   (** checkStorage's scratch key (rw_test_<random>): not part of the state *)
-  Definition store_test : M unit := prim OStore TTest (Fail EInjected) (fun w => (Ok tt, w)).
-  Definition load_test : M unit := prim OLoad TTest (Fail EInjected) (fun w => (Ok tt, w)).
-  Definition delete_test : M unit := prim ODelete TTest (Fail EInjected) (fun w => (Ok tt, w)).
+  Definition store_test : M unit := prim OStore TTest (Fail EInjected) (fun c => (Ok tt, c)).
+  Definition load_test : M unit := prim OLoad TTest (Fail EInjected) (fun c => (Ok tt, c)).
+  Definition delete_test : M unit := prim ODelete TTest (Fail EInjected) (fun c => (Ok tt, c)).
   Definition lock : M unit :=
     prim OLock TLock (Fail EInjected)
-         (fun w => if w_locked w then (Fail EOther, w) else (Ok tt, set_locked w true)).
+         (fun c => if k_locked c then (Fail EOther, c) else (Ok tt, set_locked c true)).
   Definition unlock : M unit :=
-    prim OUnlock TLock (Fail EInjected) (fun w => (Ok tt, set_locked w false)).
-  Fixpoint assoc_ser (l : list (N * bool)) (s : N) : option bool :=
-    match l with [] => None | (s', b) :: r => if N.eqb s' s then Some b else assoc_ser r s end.
+    prim OUnlock TLock (Fail EInjected) (fun c => (Ok tt, set_locked c false)).
   Definition load_ocsp (ser : N) : M bool :=
     prim OLoad (TOcsp ser) (Fail EInjected)
-         (fun w => match assoc_ser (w_ocsp w) ser with Some b => (Ok b, w) | None => (Fail ENotExist, w) end).
+         (fun c => match assoc_ser (k_ocsp c) ser with Some b => (Ok b, c) | None => (Fail ENotExist, c) end).
 
   Definition gen_key : M keyid :=
-    fun w => (Ok (w_nkey w),
-              World (w_st w) (w_ocsp w) (w_locked w) (w_nkey w + 1) (w_nser w) (w_cnt w) (LGen (w_nkey w) :: w_log w)).
+    local (fun c => (Ok (k_nkey c), Core (k_st c) (k_ocsp c) (k_locked c) (k_nkey c + 1) (k_nser c), LGen (k_nkey c))).
   (** Issuer.Issue for a CSR with key [k] and identifier [id]: the issuer certifies the CSR's key *)
   Definition issue (orc : oracle) (i : nat) (k : keyid) (id : N) : M cert :=
-    fun w => match nth i (o_out orc) None with
-             | Some (nb, v) =>
-                 (Ok (Cert k id nb v (w_nser w)),
-                  World (w_st w) (w_ocsp w) (w_locked w) (w_nkey w) (w_nser w + 1) (w_cnt w) (LIssue i k true :: w_log w))
-             | None => (Fail EIssuers, add_log w (LIssue i k false))
-             end.
+    local (fun c => match nth i (o_out orc) None with
+                    | Some (nb, v) =>
+                        (Ok (Cert k id nb v (k_nser c)),
+                         Core (k_st c) (k_ocsp c) (k_locked c) (k_nkey c) (k_nser c + 1), LIssue i k true)
+                    | None => (Fail EIssuers, c, LIssue i k false)
+                    end).
 
   (** ** storageHasCertResources / AnyIssuer: Exists .crt && .key && .json, issuers in order *)
   Definition has_res (i : nat) (d : N) : M bool :=
@@ -370,9 +377,10 @@ Section WithPlan.
 
   (** environment: the CA revokes the certificate currently stored with issuer [i] *)
   Definition revoke_env (sp : subject) (i : nat) (kc : bool) : M unit :=
-    fun w => match sget (w_st w) (i, s_save sp, FCrt) with
-             | Some (VCrt c) =>
-                 (Ok tt, World (w_st w) ((c_ser c, kc) :: w_ocsp w) (w_locked w) (w_nkey w) (w_nser w) (w_cnt w) (w_log w))
+    fun w => let c := w_core w in
+             match sget (k_st c) (i, s_save sp, FCrt) with
+             | Some (VCrt x) =>
+                 (Ok tt, World (Core (k_st c) ((c_ser x, kc) :: k_ocsp c) (k_locked c) (k_nkey c) (k_nser c)) (w_cnt w) (w_log w))
              | _ => (Ok tt, w)
              end.
 
@@ -389,9 +397,8 @@ Section WithPlan.
 End WithPlan.
 
 (** the staleness rule of the Locker after the holder died (or failed to unlock) *)
-Definition break_lock (w : world) : world := set_locked w false.
-Definition clear_log (w : world) : world :=
-  World (w_st w) (w_ocsp w) (w_locked w) (w_nkey w) (w_nser w) 0 [].
+Definition break_lock (w : world) : world := World (set_locked (w_core w) false) (w_cnt w) (w_log w).
+Definition clear_log (w : world) : world := World (w_core w) 0 [].
 
 (** * Pure vocabulary used by specifications and theorems *)
 Definition dir_key (st : storage) (i : nat) (d : N) : option keyid :=
